@@ -484,12 +484,14 @@ theorem reshape_drop_get {α} {p n1 n2 : Nat} {rows : List (List α)} (hwf : ∀
   rw [e, List.drop_drop, ← Nat.add_mul, hb]
   simp [hlt]
 
-theorem splitOwned_alignedBy {n1 : Nat} {ds a b : DS R T W}
+theorem splitOwned_alignedBy {std : Bool} {n1 : Nat} {ds a b : DS R T W}
     (hr : ∀ r ∈ ds.recs, r.length = ds.p) (ht : ∀ g ∈ ds.tgts, g.length = ds.t)
     (hlen : ds.tgts.length = ds.recs.length)
-    (h : splitOwned n1 ds = some (a, b)) :
+    (h : splitOwned std n1 ds = some (a, b)) :
     AlignedBy id id id id ds a ∧ AlignedBy (fun k => n1 + k) id id id ds b := by
   unfold splitOwned at h
+  split at h
+  · simp at h
   split at h
   · simp at h
   · rename_i hn
@@ -540,5 +542,1030 @@ theorem intoSingleTarget_alignedBy {ds d : DS R T W} (ht : ∀ g ∈ ds.tgts, g.
     simp only [flatten_singletons ds.tgts ht] at hg
     exact ⟨g, hg, fun _ y hy => ⟨y, hy, rfl⟩⟩
   · simp at h
+
+
+/-! ### the matrix shape (what an `ndarray` dataset is) is an invariant of every operation -/
+
+/-- what an `ndarray` matrix is: every record row has `p` cells, every target row `t`,
+and there is one target row per record row -/
+def Shaped (ds : DS R T W) : Prop :=
+  (∀ r ∈ ds.recs, r.length = ds.p) ∧ (∀ g ∈ ds.tgts, g.length = ds.t) ∧ ds.tgts.length = ds.recs.length
+
+/-- a dataset as the constructors of `DatasetBase` make it: matrix shape, one weight per sample
+or none, one name per column or none -/
+structure WF (ds : DS R T W) : Prop where
+  shaped : Shaped ds
+  wts : ds.weights = [] ∨ ds.weights.length = ds.recs.length
+  fnm : ds.fnames = [] ∨ ds.fnames.length = ds.p
+  tnm : ds.tnames = [] ∨ ds.tnames.length = ds.t
+
+theorem selRows_mem {α} {idx : List Nat} {xs ys : List α} (h : selRows idx xs = some ys) :
+    ∀ y ∈ ys, y ∈ xs := by
+  intro y hy
+  obtain ⟨k, hk⟩ := List.getElem?_of_mem hy
+  obtain ⟨i, _, hx⟩ := selRows_get h k y hk
+  exact List.mem_of_getElem? hx
+
+theorem selCols_rows {α} {cols : List Nat} {rows out : List (List α)} (h : selCols cols rows = some out) :
+    out.length = rows.length ∧ ∀ r ∈ out, r.length = cols.length := by
+  refine ⟨mapM_length h, fun r hr => ?_⟩
+  obtain ⟨k, hk⟩ := List.getElem?_of_mem hr
+  obtain ⟨r0, _, hs⟩ := selCols_get h k r hk
+  exact selRows_length hs
+
+theorem flatten_length_shaped {α} {p : Nat} : ∀ (rows : List (List α)), (∀ r ∈ rows, r.length = p) →
+    rows.flatten.length = rows.length * p := by
+  intro rows
+  induction rows with
+  | nil => intro _; simp
+  | cons r rows ih =>
+    intro h
+    have h0 : r.length = p := h r (by simp)
+    have := ih (fun r hr => h r (by simp [hr]))
+    simp [h0, this, Nat.succ_mul]
+    omega
+
+theorem reshape_shape {α} {n p : Nat} {buf : List α} (hb : n * p ≤ buf.length) :
+    (reshape n p buf).length = n ∧ ∀ r ∈ reshape n p buf, r.length = p := by
+  refine ⟨by simp [reshape], fun r hr => ?_⟩
+  simp only [reshape, List.mem_map, List.mem_range] at hr
+  obtain ⟨i, hi, e⟩ := hr
+  subst e
+  have : (i + 1) * p ≤ n * p := Nat.mul_le_mul_right p hi
+  rw [Nat.succ_mul] at this
+  simp
+  omega
+
+theorem shaped_of {p t : Nat} {recs : List (List R)} {tgts : List (List T)} {d : DS R T W}
+    (hp : d.p = p) (ht : d.t = t) (hr : d.recs = recs) (hg : d.tgts = tgts)
+    (h1 : ∀ r ∈ recs, r.length = p) (h2 : ∀ g ∈ tgts, g.length = t) (h3 : tgts.length = recs.length) :
+    Shaped d := by
+  subst hp; subst ht; subst hr; subst hg
+  exact ⟨h1, h2, h3⟩
+
+/-! ### every operation preserves `WF` -/
+
+
+theorem take_mem {α} {l : List α} {n : Nat} : ∀ x ∈ l.take n, x ∈ l := fun _ h => List.mem_of_mem_take h
+theorem drop_mem {α} {l : List α} {n : Nat} : ∀ x ∈ l.drop n, x ∈ l := fun _ h => List.mem_of_mem_drop h
+
+theorem splitView_wf [DecidableEq T] {n1 : Nat} {ds a b : DS R T W} (hw : WF ds)
+    (h : splitView n1 ds = some (a, b)) : WF a ∧ WF b := by
+  obtain ⟨⟨h1, h2, h3⟩, hwt, hf, ht⟩ := hw
+  unfold splitView at h
+  split at h
+  · simp at h
+  · rename_i hn
+    simp only [Option.some.injEq, Prod.mk.injEq] at h
+    obtain ⟨ha, hb⟩ := h
+    subst ha; subst hb
+    simp only [DS.n] at hn ⊢
+    constructor
+    · refine ⟨⟨fun r hr => h1 r (take_mem r hr), fun g hg => h2 g (take_mem g hg), by simp [h3]⟩, ?_, hf, ht⟩
+      by_cases hl : ds.weights.length = ds.recs.length
+      · right; simp [hl]
+      · left; simp [hl]
+    · refine ⟨⟨fun r hr => h1 r (drop_mem r hr), fun g hg => h2 g (drop_mem g hg), by simp [h3]⟩, ?_, hf, ht⟩
+      by_cases hl : ds.weights.length = ds.recs.length
+      · right; simp [hl]
+      · left; simp [hl]
+
+theorem splitOwned_wf {std : Bool} {n1 : Nat} {ds a b : DS R T W} (hw : WF ds)
+    (h : splitOwned std n1 ds = some (a, b)) : WF a ∧ WF b := by
+  obtain ⟨⟨h1, h2, h3⟩, hwt, hf, ht⟩ := hw
+  unfold splitOwned at h
+  split at h
+  · simp at h
+  split at h
+  · simp at h
+  · rename_i hn
+    simp only [Option.some.injEq, Prod.mk.injEq] at h
+    obtain ⟨ha, hb⟩ := h
+    subst ha; subst hb
+    simp only [DS.n] at hn ⊢
+    have hn1 : n1 ≤ ds.recs.length := by omega
+    have hrl := flatten_length_shaped ds.recs h1
+    have htl := flatten_length_shaped ds.tgts h2
+    have m1 : n1 * ds.p ≤ ds.recs.length * ds.p := Nat.mul_le_mul_right _ hn1
+    have m2 : n1 * ds.t ≤ ds.tgts.length * ds.t := Nat.mul_le_mul_right _ (by omega)
+    have e1 : (ds.recs.length - n1) * ds.p = ds.recs.length * ds.p - n1 * ds.p := Nat.sub_mul ..
+    have e2 : (ds.recs.length - n1) * ds.t = ds.tgts.length * ds.t - n1 * ds.t := by rw [h3]; exact Nat.sub_mul ..
+    have ra := reshape_shape (n := n1) (p := ds.p) (buf := ds.recs.flatten.take (n1 * ds.p)) (by rw [List.length_take, hrl]; omega)
+    have ta := reshape_shape (n := n1) (p := ds.t) (buf := ds.tgts.flatten.take (n1 * ds.t)) (by rw [List.length_take, htl]; omega)
+    have rb := reshape_shape (n := ds.recs.length - n1) (p := ds.p) (buf := ds.recs.flatten.drop (n1 * ds.p)) (by rw [List.length_drop, hrl]; omega)
+    have tb := reshape_shape (n := ds.recs.length - n1) (p := ds.t) (buf := ds.tgts.flatten.drop (n1 * ds.t)) (by rw [List.length_drop, htl]; omega)
+    constructor
+    · refine ⟨⟨ra.2, ta.2, by rw [ra.1, ta.1]⟩, ?_, hf, ht⟩
+      dsimp only
+      rw [ra.1]
+      by_cases hl : ds.weights.length = n1 + (ds.recs.length - n1)
+      · right; simp [hl]
+      · rcases hwt with hwt | hwt
+        · left; simp [hwt]
+        · exfalso; omega
+    · refine ⟨⟨rb.2, tb.2, by rw [rb.1, tb.1]⟩, ?_, hf, ht⟩
+      dsimp only
+      rw [rb.1]
+      by_cases hl : ds.weights.length = n1 + (ds.recs.length - n1)
+      · right; simp [hl]
+      · left; simp [hl]
+
+
+theorem wf_of_selRows [DecidableEq T] {idx : List Nat} {ds : DS R T W} {r : List (List R)} {g : List (List T)}
+    (hw : WF ds) (hr : selRows idx ds.recs = some r) (hg : selRows idx ds.tgts = some g)
+    {d : DS R T W} (hp : d.p = ds.p) (ht : d.t = ds.t) (er : d.recs = r) (eg : d.tgts = g)
+    (ew : d.weights = [] ∨ selRows idx ds.weights = some d.weights)
+    (ef : d.fnames = [] ∨ d.fnames = ds.fnames) (et : d.tnames = [] ∨ d.tnames = ds.tnames) : WF d := by
+  obtain ⟨⟨h1, h2, h3⟩, hwt, hf, htn⟩ := hw
+  refine ⟨shaped_of hp ht er eg (fun x hx => h1 x (selRows_mem hr x hx)) (fun x hx => h2 x (selRows_mem hg x hx))
+    (by rw [selRows_length hr, selRows_length hg]), ?_, ?_, ?_⟩
+  · rcases ew with ew | ew
+    · left; exact ew
+    · right; rw [selRows_length ew, er, selRows_length hr]
+  · rcases ef with ef | ef
+    · left; exact ef
+    · rw [ef, hp]; exact hf
+  · rcases et with et | et
+    · left; exact et
+    · rw [et, ht]; exact htn
+
+theorem shuffle_wf [DecidableEq T] {idx : List Nat} {ds d : DS R T W} (hw : WF ds)
+    (h : shuffle idx ds = some d) : WF d := by
+  unfold shuffle at h
+  cases hr : selRows idx ds.recs with
+  | none => simp [hr] at h
+  | some r =>
+    cases hg : selRows idx ds.tgts with
+    | none => simp [hr, hg] at h
+    | some g =>
+      simp [hr, hg] at h; subst h
+      exact wf_of_selRows hw hr hg rfl rfl rfl rfl (Or.inl rfl) (Or.inr rfl) (Or.inr rfl)
+
+theorem bootstrapSamples_wf [DecidableEq T] {ns : Nat} {idx : List Nat} {ds d : DS R T W} (hw : WF ds)
+    (h : bootstrapSamples ns idx ds = some d) : WF d := by
+  unfold bootstrapSamples at h
+  split at h
+  · simp at h
+  · cases hr : selRows idx ds.recs with
+    | none => simp [hr] at h
+    | some r =>
+      cases hg : selRows idx ds.tgts with
+      | none => simp [hr, hg] at h
+      | some g =>
+        simp [hr, hg] at h; subst h
+        exact wf_of_selRows hw hr hg rfl rfl rfl rfl (Or.inl rfl) (Or.inl rfl) (Or.inl rfl)
+
+theorem bootstrapFeatures_wf [DecidableEq T] {nf : Nat} {fidx : List Nat} {ds d : DS R T W} (hw : WF ds)
+    (h : bootstrapFeatures nf fidx ds = some d) : WF d := by
+  obtain ⟨⟨h1, h2, h3⟩, hwt, hf, htn⟩ := hw
+  unfold bootstrapFeatures at h
+  split at h
+  · simp at h
+  · cases hr : selCols fidx ds.recs with
+    | none => simp [hr] at h
+    | some r =>
+      simp [hr] at h; subst h
+      obtain ⟨hl, hrow⟩ := selCols_rows hr
+      exact ⟨⟨hrow, h2, by simp [hl, h3]⟩, Or.inl rfl, Or.inl rfl, Or.inl rfl⟩
+
+theorem bootstrap_wf [DecidableEq T] {ns nf : Nat} {idx fidx : List Nat} {ds d : DS R T W} (hw : WF ds)
+    (h : bootstrap ns nf idx fidx ds = some d) : WF d := by
+  unfold bootstrap at h
+  cases hs : bootstrapSamples ns idx ds with
+  | none => simp [hs] at h
+  | some d1 =>
+    simp [hs] at h
+    exact bootstrapFeatures_wf (bootstrapSamples_wf hw hs) h
+
+theorem withLabels_wf [DecidableEq T] {labs : List T} {ds d : DS R T W} (hw : WF ds)
+    (h : withLabels labs ds = some d) : WF d := by
+  unfold withLabels at h
+  simp only at h
+  cases hr : selRows (keptIdx labs (ds.tgts.take ds.n)) ds.recs with
+  | none => simp [hr] at h
+  | some r =>
+    cases hg : selRows (keptIdx labs (ds.tgts.take ds.n)) ds.tgts with
+    | none => simp [hr, hg] at h
+    | some g =>
+      by_cases hwe : ds.weights.isEmpty = true
+      · simp [hr, hg, hwe] at h; subst h
+        exact wf_of_selRows hw hr hg rfl rfl rfl rfl (Or.inl rfl) (Or.inr rfl) (Or.inr rfl)
+      · cases hws : selRows (keptIdx labs (ds.tgts.take ds.n)) ds.weights with
+        | none => simp [hr, hg, hwe, hws] at h
+        | some w =>
+          simp [hr, hg, hwe, hws] at h; subst h
+          exact wf_of_selRows hw hr hg rfl rfl rfl rfl (Or.inr hws) (Or.inr rfl) (Or.inr rfl)
+
+theorem map_rows_length {α β} (f : α → β) {rows : List (List α)} {t : Nat} (h : ∀ g ∈ rows, g.length = t) :
+    ∀ g ∈ rows.map (·.map f), g.length = t := by
+  intro g hg
+  simp only [List.mem_map] at hg
+  obtain ⟨g0, h0, e⟩ := hg
+  subst e
+  simpa using h g0 h0
+
+theorem mapTargets_wf {S} (f : T → S) {ds : DS R T W} (hw : WF ds) : WF (mapTargets f ds) := by
+  obtain ⟨⟨h1, h2, h3⟩, hwt, hf, htn⟩ := hw
+  exact ⟨⟨h1, map_rows_length f h2, by simp [mapTargets, h3]⟩, hwt, hf, htn⟩
+
+theorem oneVsAll_wf [DecidableEq T] {ds : DS R T W} (hw : WF ds) (l : T) (d : DS R Bool W)
+    (hd : (l, d) ∈ oneVsAll ds) : WF d := by
+  obtain ⟨⟨h1, h2, h3⟩, hwt, hf, htn⟩ := hw
+  simp only [oneVsAll, List.mem_map] at hd
+  obtain ⟨l', _, e⟩ := hd
+  simp only [Prod.mk.injEq] at e
+  obtain ⟨e1, e2⟩ := e
+  subst e1; subst e2
+  exact ⟨⟨h1, map_rows_length _ h2, by simp [h3]⟩, hwt, hf, htn⟩
+
+theorem view_wf [DecidableEq T] {ds : DS R T W} (hw : WF ds) : WF (view ds) :=
+  ⟨hw.shaped, hw.wts, hw.fnm, hw.tnm⟩
+
+theorem toOwned_wf [DecidableEq T] {ds : DS R T W} (hw : WF ds) : WF (toOwned ds) :=
+  ⟨hw.shaped, Or.inl rfl, Or.inl rfl, Or.inl rfl⟩
+
+theorem intoSingleTarget_wf {ds d : DS R T W} (hw : WF ds) (h : intoSingleTarget ds = some d) : WF d := by
+  obtain ⟨⟨h1, h2, h3⟩, hwt, hf, htn⟩ := hw
+  unfold intoSingleTarget at h
+  simp only at h
+  split at h
+  · rename_i hl
+    simp only [Option.some.injEq] at h
+    subst h
+    refine ⟨⟨h1, ?_, by rw [List.length_map]; exact hl⟩, Or.inl rfl, Or.inl rfl, Or.inl rfl⟩
+    intro g hg
+    simp only [List.mem_map] at hg
+    obtain ⟨x, _, e⟩ := hg
+    subst e; rfl
+  · simp at h
+
+theorem colOf_rows {α} {j : Nat} {rows out : List (List α)} (h : colOf j rows = some out) :
+    out.length = rows.length ∧ ∀ r ∈ out, r.length = 1 := by
+  simpa using selCols_rows h
+
+theorem featureIter_wf {ds : DS R T W} {outs : List (DS R T W)} (hw : WF ds) (h : featureIter ds = some outs) :
+    ∀ d ∈ outs, WF d := by
+  obtain ⟨⟨h1, h2, h3⟩, hwt, hf, htn⟩ := hw
+  intro d hd
+  obtain ⟨k, hk⟩ := List.getElem?_of_mem hd
+  obtain ⟨x, _, hfx⟩ := mapM_get h k d hk
+  cases hc : colOf x ds.recs with
+  | none => simp [hc] at hfx
+  | some r =>
+    obtain ⟨hl, hrow⟩ := colOf_rows hc
+    by_cases hn1 : ds.fnames.length = 1
+    · cases hn : ds.fnames[x]? with
+      | none => simp [hc, hn1, hn] at hfx
+      | some nm0 =>
+        simp [hc, hn1, hn] at hfx; subst hfx
+        exact ⟨⟨hrow, h2, by simp [hl, h3]⟩, by simpa [hl] using hwt, Or.inr rfl, htn⟩
+    · simp [hc, hn1] at hfx; subst hfx
+      exact ⟨⟨hrow, h2, by simp [hl, h3]⟩, by simpa [hl] using hwt, Or.inl rfl, htn⟩
+
+theorem targetIter_wf {ds : DS R T W} {outs : List (DS R T W)} (hw : WF ds) (h : targetIter ds = some outs) :
+    ∀ d ∈ outs, WF d := by
+  obtain ⟨⟨h1, h2, h3⟩, hwt, hf, htn⟩ := hw
+  intro d hd
+  obtain ⟨k, hk⟩ := List.getElem?_of_mem hd
+  obtain ⟨x, _, hfx⟩ := mapM_get h k d hk
+  cases hc : colOf x ds.tgts with
+  | none => simp [hc] at hfx
+  | some g =>
+    obtain ⟨hl, hrow⟩ := colOf_rows hc
+    by_cases hn1 : ds.tnames.isEmpty = true
+    · simp [hc, hn1] at hfx; subst hfx
+      exact ⟨⟨h1, hrow, by simp [hl, h3]⟩, hwt, hf, Or.inl rfl⟩
+    · cases hn : ds.tnames[x]? with
+      | none => simp [hc, hn1, hn] at hfx
+      | some nm0 =>
+        simp [hc, hn1, hn] at hfx; subst hfx
+        exact ⟨⟨h1, hrow, by simp [hl, h3]⟩, hwt, hf, Or.inr rfl⟩
+
+theorem sampleChunks_wf [DecidableEq T] {size : Nat} {ds : DS R T W} {outs : List (DS R T W)} (hw : WF ds)
+    (h : sampleChunks size ds = some outs) : ∀ d ∈ outs, WF d := by
+  obtain ⟨⟨h1, h2, h3⟩, hwt, hf, htn⟩ := hw
+  unfold sampleChunks at h
+  split at h
+  · simp at h
+  · simp only [Option.some.injEq] at h
+    subst h
+    intro d hd
+    simp only [List.mem_map] at hd
+    obtain ⟨i, _, e⟩ := hd
+    subst e
+    exact ⟨⟨fun r hr => h1 r (List.mem_of_mem_drop (List.mem_of_mem_take hr)),
+      fun g hg => h2 g (List.mem_of_mem_drop (List.mem_of_mem_take hg)), by simp [h3]⟩, Or.inl rfl, Or.inl rfl, Or.inl rfl⟩
+
+
+/-- the raw-buffer operations get what they need from the matrix shape -/
+theorem singletons_of_wf {ds d : DS R T W} (hw : WF ds) (h : intoSingleTarget ds = some d) :
+    ∀ g ∈ ds.tgts, g.length = 1 := by
+  obtain ⟨⟨h1, h2, h3⟩, _, _, _⟩ := hw
+  unfold intoSingleTarget at h
+  simp only at h
+  split at h
+  · rename_i hl
+    rw [flatten_length_shaped ds.tgts h2, DS.n, ← h3] at hl
+    intro g hg
+    have hpos : 0 < ds.tgts.length := List.length_pos_of_mem hg
+    have : ds.t = 1 := by
+      have := Nat.eq_of_mul_eq_mul_left hpos (by rw [hl, Nat.mul_one] : ds.tgts.length * ds.t = ds.tgts.length * 1)
+      exact this
+    rw [h2 g hg, this]
+  · simp at h
+
+
+
+/-! ### label counting is counting -/
+
+theorem bump_keys [DecidableEq T] (m : List (T × Nat)) (x : T) :
+    (bump m x).map (·.1) = if x ∈ m.map (·.1) then m.map (·.1) else m.map (·.1) ++ [x] := by
+  induction m with
+  | nil => simp [bump]
+  | cons yc rest ih =>
+    obtain ⟨y, c⟩ := yc
+    by_cases hy : y = x
+    · subst hy; simp [bump]
+    · have hxy : ¬ x = y := fun e => hy e.symm
+      by_cases hm : x ∈ rest.map (·.1)
+      · simp [bump, hy, ih, hm]
+      · simp [bump, hy, ih, hm, hxy]
+
+/-- the count stored for `y` (0 when `y` is not a key) -/
+def cnt [DecidableEq T] (m : List (T × Nat)) (y : T) : Nat := ((m.find? (·.1 = y)).map (·.2)).getD 0
+
+theorem cnt_bump [DecidableEq T] (m : List (T × Nat)) (x y : T) :
+    cnt (bump m x) y = cnt m y + (if y = x then 1 else 0) := by
+  induction m with
+  | nil => by_cases h : y = x <;> simp [bump, cnt, h, eq_comm]
+  | cons zc rest ih =>
+    obtain ⟨z, c⟩ := zc
+    by_cases hz : z = x
+    · subst hz
+      by_cases h : y = z
+      · subst h; simp [bump, cnt]
+      · have h' : ¬ z = y := fun e => h e.symm
+        simp [bump, cnt, h, h']
+    · by_cases h : z = y
+      · subst h
+        have : ¬ z = x := hz
+        simp [bump, cnt, hz]
+      · simp only [bump, hz, if_false]
+        unfold cnt at ih ⊢
+        simp [h]
+        simpa using ih
+
+theorem cnt_foldl_bump [DecidableEq T] (col : List T) : ∀ (m : List (T × Nat)) (y : T),
+    cnt (col.foldl bump m) y = cnt m y + col.count y := by
+  induction col with
+  | nil => intro m y; simp
+  | cons x col ih =>
+    intro m y
+    rw [List.foldl_cons, ih, cnt_bump, List.count_cons]
+    by_cases h : y = x
+    · subst h; simp; omega
+    · have h' : ¬ x = y := fun e => h e.symm
+      simp [h, h']
+
+theorem keys_foldl_bump [DecidableEq T] (col : List T) : ∀ (m : List (T × Nat)),
+    (m.map (·.1)).Nodup → ((col.foldl bump m).map (·.1)).Nodup ∧
+      ∀ y, y ∈ (col.foldl bump m).map (·.1) ↔ y ∈ m.map (·.1) ∨ y ∈ col := by
+  induction col with
+  | nil => intro m hm; simp [hm]
+  | cons x col ih =>
+    intro m hm
+    have hk := bump_keys m x
+    have hnd : ((bump m x).map (·.1)).Nodup := by
+      rw [hk]
+      split
+      · exact hm
+      · rename_i hx
+        exact List.nodup_append.mpr ⟨hm, by simp, by
+          intro a ha b hb; simp at hb; subst hb; exact fun e => hx (e ▸ ha)⟩
+    obtain ⟨h1, h2⟩ := ih (bump m x) hnd
+    refine ⟨h1, fun y => ?_⟩
+    rw [List.foldl_cons, h2, hk]
+    split
+    · rename_i hx
+      constructor
+      · rintro (h | h)
+        · exact Or.inl h
+        · exact Or.inr (List.mem_cons_of_mem _ h)
+      · rintro (h | h)
+        · exact Or.inl h
+        · rcases List.mem_cons.mp h with e | h
+          · subst e; exact Or.inl hx
+          · exact Or.inr h
+    · simp only [List.mem_append, List.mem_cons, List.not_mem_nil, or_false]
+      constructor
+      · rintro ((h | h) | h)
+        · exact Or.inl h
+        · exact Or.inr (Or.inl h)
+        · exact Or.inr (Or.inr h)
+      · rintro (h | h | h)
+        · exact Or.inl (Or.inl h)
+        · exact Or.inl (Or.inr h)
+        · exact Or.inr h
+
+theorem cnt_of_mem [DecidableEq T] {m : List (T × Nat)} (hnd : (m.map (·.1)).Nodup) {y : T} {c : Nat}
+    (h : (y, c) ∈ m) : cnt m y = c := by
+  induction m with
+  | nil => simp at h
+  | cons zc rest ih =>
+    obtain ⟨z, c'⟩ := zc
+    simp only [List.map_cons, List.nodup_cons] at hnd
+    rcases List.mem_cons.mp h with e | h'
+    · cases e; simp [cnt]
+    · have hz : ¬ z = y := by
+        intro e; subst e
+        exact hnd.1 (List.mem_map.mpr ⟨(z, c), h', rfl⟩)
+      unfold cnt at ih ⊢
+      simp [hz]
+      simpa using ih hnd.2 h'
+
+
+/-- **`label_count` counts**: the keys of a column's label map are exactly the labels occurring in
+the column, each once, and the number stored with a label is the number of its occurrences -/
+theorem countCol_spec [DecidableEq T] (col : List T) :
+    ((countCol col).map (·.1)).Nodup ∧ (∀ y, y ∈ (countCol col).map (·.1) ↔ y ∈ col) ∧
+    ∀ y c, (y, c) ∈ countCol col → c = col.count y ∧ 0 < c := by
+  obtain ⟨hnd, hmem⟩ := keys_foldl_bump col [] (by simp)
+  refine ⟨hnd, fun y => by simpa [countCol] using hmem y, fun y c hyc => ?_⟩
+  have h1 := cnt_of_mem hnd hyc
+  have h2 := cnt_foldl_bump col [] y
+  have hy : y ∈ col := by
+    have := (hmem y).mp (List.mem_map.mpr ⟨(y, c), hyc, rfl⟩)
+    simpa using this
+  have hc : c = col.count y := by
+    unfold countCol at h1
+    rw [h2] at h1
+    simp [cnt] at h1
+    exact h1.symm
+  exact ⟨hc, by rw [hc]; exact List.count_pos_iff.mpr hy⟩
+
+theorem mem_column {α} {c : Nat} {rows : List (List α)} {l : α} :
+    l ∈ column c rows ↔ ∃ g ∈ rows, g[c]? = some l := by
+  simp [column]
+
+/-! ### `eraseDups` (core has only the unfolding lemma) -/
+
+theorem eraseDups_spec {α} [DecidableEq α] : ∀ (n : Nat) (l : List α), l.length ≤ n →
+    l.eraseDups.Nodup ∧ ∀ x, x ∈ l.eraseDups ↔ x ∈ l := by
+  intro n
+  induction n with
+  | zero =>
+    intro l hl
+    have : l = [] := List.eq_nil_of_length_eq_zero (by omega)
+    subst this; simp
+  | succ n ih =>
+    intro l hl
+    cases l with
+    | nil => simp
+    | cons a as =>
+      rw [List.eraseDups_cons]
+      have hlen : (as.filter fun b => !b == a).length ≤ n := by
+        have := List.length_filter_le (fun b => !b == a) as
+        simp at hl; omega
+      obtain ⟨hnd, hmem⟩ := ih _ hlen
+      constructor
+      · refine List.nodup_cons.mpr ⟨?_, hnd⟩
+        rw [hmem]; simp
+      · intro x
+        simp only [List.mem_cons, hmem, List.mem_filter]
+        by_cases hx : x = a
+        · simp [hx]
+        · simp [hx]
+
+/-- a cached label count, when there is one, is the count of the targets it sits next to -/
+def CountsOk [DecidableEq T] (ds : DS R T W) : Prop :=
+  ∀ c, ds.counts = some c → c = labelCount ds.t ds.tgts
+
+/-- **the labels of a dataset** (`labels()`, what `one_vs_all` iterates over): each label that
+occurs in the targets, exactly once, and nothing else -/
+theorem labelsOf_spec [DecidableEq T] {ds : DS R T W} (h2 : ∀ g ∈ ds.tgts, g.length = ds.t) (hc : CountsOk ds) :
+    (labelsOf ds).Nodup ∧ ∀ l, l ∈ labelsOf ds ↔ ∃ g ∈ ds.tgts, l ∈ g := by
+  have hcs : labelsOf ds = (((labelCount ds.t ds.tgts).flatten.map (·.1))).eraseDups := by
+    unfold labelsOf
+    cases hco : ds.counts with
+    | none => rfl
+    | some c => simp [hc c hco]
+  rw [hcs]
+  obtain ⟨hnd, hmem⟩ := eraseDups_spec _ ((labelCount ds.t ds.tgts).flatten.map (·.1)) (Nat.le_refl _)
+  refine ⟨hnd, fun l => ?_⟩
+  rw [hmem]
+  simp only [labelCount, List.mem_map, List.mem_flatten, List.mem_range]
+  constructor
+  · rintro ⟨⟨l', n⟩, ⟨m, ⟨c, hct, rfl⟩, hm⟩, rfl⟩
+    have := ((countCol_spec (column c ds.tgts)).2.1 l').mp (List.mem_map.mpr ⟨(l', n), hm, rfl⟩)
+    obtain ⟨g, hg, hgc⟩ := mem_column.mp this
+    exact ⟨g, hg, List.mem_of_getElem? hgc⟩
+  · rintro ⟨g, hg, hl⟩
+    obtain ⟨c, hc'⟩ := List.getElem?_of_mem hl
+    have hct : c < ds.t := by
+      rw [← h2 g hg]
+      exact (List.getElem?_eq_some_iff.mp hc').1
+    have hcol : l ∈ column c ds.tgts := mem_column.mpr ⟨g, hg, hc'⟩
+    have := ((countCol_spec (column c ds.tgts)).2.1 l).mpr hcol
+    obtain ⟨⟨l', n⟩, hm, e⟩ := List.mem_map.mp this
+    simp at e; subst e
+    exact ⟨(l', n), ⟨_, ⟨c, hct, rfl⟩, hm⟩, rfl⟩
+
+
+/-! ### totality helpers, per-sample iteration, label frequencies -/
+
+
+theorem mapM_isSome {α β} {f : α → Option β} {l : List α} (h : ∀ x ∈ l, (f x).isSome) : (l.mapM f).isSome := by
+  induction l with
+  | nil => simp
+  | cons a l ih =>
+    simp only [List.mapM_cons]
+    have ha := h a (by simp)
+    have hl := ih (fun x hx => h x (by simp [hx]))
+    cases hfa : f a with
+    | none => simp [hfa] at ha
+    | some b =>
+      cases hfl : List.mapM f l with
+      | none => simp [hfl] at hl
+      | some bs => simp
+
+theorem selRows_isSome {α} {idx : List Nat} {xs : List α} (h : ∀ i ∈ idx, i < xs.length) : (selRows idx xs).isSome :=
+  mapM_isSome (fun i hi => by simp [h i hi])
+
+theorem selCols_isSome {α} {cols : List Nat} {rows : List (List α)} {p : Nat} (hr : ∀ r ∈ rows, r.length = p)
+    (h : ∀ j ∈ cols, j < p) : (selCols cols rows).isSome :=
+  mapM_isSome (fun r hrr => selRows_isSome (fun j hj => by rw [hr r hrr]; exact h j hj))
+
+/-- **per-sample iteration**: the `k`-th pair is the record and the target row at position `k` -/
+theorem sampleIter_pairs {ds : DS R T W} {prs : List (List R × List T)} (h : sampleIter ds = some prs) :
+    prs.length = ds.n ∧ ∀ (k : Nat) (r : List R) (g : List T), prs[k]? = some (r, g) → ds.recs[k]? = some r ∧ ds.tgts[k]? = some g := by
+  refine ⟨by simpa using mapM_length h, fun k r g hk => ?_⟩
+  obtain ⟨x, hx, hf⟩ := mapM_get h k (r, g) hk
+  obtain ⟨hxk, _⟩ := range_get hx
+  subst hxk
+  cases hr : ds.recs[x]? with
+  | none => simp [hr] at hf
+  | some r0 =>
+    cases hg : ds.tgts[x]? with
+    | none => simp [hr, hg] at hf
+    | some g0 => simp [hr, hg] at hf; exact ⟨by rw [hf.1], by rw [hf.2]⟩
+
+theorem sampleIter_total {ds : DS R T W} (h3 : ds.tgts.length = ds.recs.length) : (sampleIter ds).isSome := by
+  refine mapM_isSome (fun i hi => ?_)
+  have hi' : i < ds.recs.length := by simpa [DS.n] using hi
+  have : i < ds.tgts.length := by omega
+  simp [hi', this]
+
+/-- rows paired with the weights next to them (`one` where the weights run out) -/
+def pairUp (one : W) : List (List T) → List W → List (List T × W)
+  | [], _ => []
+  | g :: gs, ws => (g, ws.head?.getD one) :: pairUp one gs ws.tail
+
+theorem range_pairUp (one : W) : ∀ (gs : List (List T)) (ws : List W),
+    (List.range gs.length).filterMap (fun j => (gs[j]?).map fun g => (g, (ws[j]?).getD one)) = pairUp one gs ws := by
+  intro gs
+  induction gs with
+  | nil => intro ws; simp [pairUp]
+  | cons g gs ih =>
+    intro ws
+    rw [List.length_cons, List.range_succ_eq_map, List.filterMap_cons]
+    simp only [List.getElem?_cons_zero, Option.map_some, pairUp, List.filterMap_map, Function.comp_def,
+      List.getElem?_cons_succ]
+    congr 1
+    · cases ws <;> simp
+    · rw [← ih ws.tail]
+      cases ws <;> simp
+
+theorem sel_pairUp (one : W) (tgts : List (List T)) (weights : List W) : ∀ (K : List Nat) (g' : List (List T)) (w' : List W),
+    selRows K tgts = some g' → ((weights = [] ∧ w' = []) ∨ selRows K weights = some w') →
+    K.filterMap (fun i => (tgts[i]?).map fun g => (g, (weights[i]?).getD one)) = pairUp one g' w' := by
+  intro K
+  induction K with
+  | nil => intro g' w' hg _; simp [selRows] at hg; subst hg; simp [pairUp]
+  | cons i K ih =>
+    intro g' w' hg hw
+    rw [selRows_cons] at hg
+    cases hx : tgts[i]? with
+    | none => simp [hx] at hg
+    | some x =>
+      cases hs : selRows K tgts with
+      | none => simp [hx, hs] at hg
+      | some gs =>
+        simp [hx, hs] at hg; subst hg
+        rcases hw with ⟨hw0, hw1⟩ | hw
+        · subst hw0; subst hw1
+          simp only [List.filterMap_cons, hx, Option.map_some, pairUp]
+          congr 1
+          exact ih gs [] hs (Or.inl ⟨rfl, rfl⟩)
+        · rw [selRows_cons] at hw
+          cases hy : weights[i]? with
+          | none => simp [hy] at hw
+          | some y =>
+            cases hws : selRows K weights with
+            | none => simp [hy, hws] at hw
+            | some ws =>
+              simp [hy, hws] at hw; subst hw
+              simp only [List.filterMap_cons, hx, hy, Option.map_some, pairUp]
+              congr 1
+              exact ih gs ws hs (Or.inr hws)
+
+/-- **masking = filtering**: `label_frequencies_with_mask(mask)` accumulates exactly the rows that
+`label_frequencies()` accumulates on the dataset restricted to the positions passing the mask —
+targets *and weights* selected by the same positions (so the `j`-th kept sample contributes with
+its own weight, not with the weight of sample `j`) -/
+theorem maskedRows_restrict (one : W) (mask : List Bool) (ds : DS R T W) (g' : List (List T)) (w' : List W)
+    (hg : selRows ((List.range ds.tgts.length).filter fun i => mask.getD i true) ds.tgts = some g')
+    (hw : (ds.weights = [] ∧ w' = []) ∨
+      selRows ((List.range ds.tgts.length).filter fun i => mask.getD i true) ds.weights = some w') :
+    maskedRows one mask ds = maskedRows one [] { ds with tgts := g', weights := w' } := by
+  have hR : maskedRows one [] { ds with tgts := g', weights := w' } = pairUp one g' w' := by
+    unfold maskedRows weightFor
+    simp only [List.getD_eq_getElem?_getD, List.getElem?_nil, Option.getD_none, List.filter_eq_self.mpr (fun _ _ => rfl)]
+    exact range_pairUp one g' w'
+  rw [hR]
+  unfold maskedRows weightFor
+  exact sel_pairUp one ds.tgts ds.weights _ g' w' hg hw
+
+
+/-! ### cached label counts are fresh -/
+
+
+theorem recount_ok [DecidableEq T] {b : Bool} {t : Nat} {g : List (List T)} {d : DS R T W}
+    (ht : d.t = t) (hg : d.tgts = g) (hc : d.counts = recount b t g) : CountsOk d := by
+  intro c hco
+  rw [hc] at hco
+  unfold recount at hco
+  split at hco
+  · simp at hco; rw [ht, hg]; exact hco.symm
+  · simp at hco
+
+theorem none_ok [DecidableEq T] {d : DS R T W} (hc : d.counts = none) : CountsOk d := by
+  intro c hco; rw [hc] at hco; simp at hco
+
+/-- **a cached label count is never stale**: whatever dataset any operation returns, its cached
+counts (if it has any) are the counts of the targets it wraps -/
+theorem apply_counts_fresh_aux [DecidableEq T] (ofBool : Bool → T) (op : Op T) (ds : DS R T W)
+    (outs : List (DS R T W)) (h : apply ofBool op ds = some outs) : ∀ d ∈ outs, CountsOk d := by
+  cases op with
+  | splitView n1 =>
+    simp only [apply, Option.map_eq_some_iff] at h
+    obtain ⟨⟨a, b⟩, hs, e⟩ := h
+    subst e
+    unfold splitView at hs
+    split at hs
+    · simp at hs
+    · simp only [Option.some.injEq, Prod.mk.injEq] at hs
+      obtain ⟨ha, hb⟩ := hs
+      subst ha; subst hb
+      intro d hd
+      simp at hd
+      rcases hd with hd | hd <;> subst hd <;> exact recount_ok rfl rfl rfl
+  | splitOwned std n1 =>
+    simp only [apply] at h
+    split at h
+    · simp at h
+    · rename_i hcn
+      simp only [Option.map_eq_some_iff] at h
+      obtain ⟨⟨a, b⟩, hs, e⟩ := h
+      subst e
+      unfold splitOwned at hs
+      split at hs
+      · simp at hs
+      split at hs
+      · simp at hs
+      · simp only [Option.some.injEq, Prod.mk.injEq] at hs
+        obtain ⟨ha, hb⟩ := hs
+        subst ha; subst hb
+        have hn : ds.counts = none := by
+          simp only [DS.counted] at hcn
+          cases hco : ds.counts with
+          | none => rfl
+          | some c => simp [hco] at hcn
+        intro d hd
+        simp at hd
+        rcases hd with hd | hd <;> subst hd <;> exact none_ok hn
+  | shuffle idx =>
+    simp only [apply, Option.map_eq_some_iff] at h
+    obtain ⟨a, hs, e⟩ := h
+    subst e
+    intro d hd; simp at hd; subst hd
+    unfold shuffle at hs
+    cases hr : selRows idx ds.recs with
+    | none => simp [hr] at hs
+    | some r =>
+      cases hg : selRows idx ds.tgts with
+      | none => simp [hr, hg] at hs
+      | some g => simp [hr, hg] at hs; subst hs; exact recount_ok rfl rfl rfl
+  | bootstrap ns nf idx fidx =>
+    simp only [apply, Option.map_eq_some_iff] at h
+    obtain ⟨a, hs, e⟩ := h
+    subst e
+    intro d hd; simp at hd; subst hd
+    unfold bootstrap at hs
+    cases hb : bootstrapSamples ns idx ds with
+    | none => simp [hb] at hs
+    | some d1 =>
+      simp [hb] at hs
+      unfold bootstrapFeatures at hs
+      split at hs
+      · simp at hs
+      · cases hr : selCols fidx d1.recs with
+        | none => simp [hr] at hs
+        | some r => simp [hr] at hs; subst hs; exact recount_ok rfl rfl rfl
+  | bootstrapSamples ns idx =>
+    simp only [apply, Option.map_eq_some_iff] at h
+    obtain ⟨a, hs, e⟩ := h
+    subst e
+    intro d hd; simp at hd; subst hd
+    unfold bootstrapSamples at hs
+    split at hs
+    · simp at hs
+    · cases hr : selRows idx ds.recs with
+      | none => simp [hr] at hs
+      | some r =>
+        cases hg : selRows idx ds.tgts with
+        | none => simp [hr, hg] at hs
+        | some g => simp [hr, hg] at hs; subst hs; exact recount_ok rfl rfl rfl
+  | bootstrapFeatures nf fidx =>
+    simp only [apply, Option.map_eq_some_iff] at h
+    obtain ⟨a, hs, e⟩ := h
+    subst e
+    intro d hd; simp at hd; subst hd
+    unfold bootstrapFeatures at hs
+    split at hs
+    · simp at hs
+    · cases hr : selCols fidx ds.recs with
+      | none => simp [hr] at hs
+      | some r => simp [hr] at hs; subst hs; exact recount_ok rfl rfl rfl
+  | withLabels labs =>
+    simp only [apply, Option.map_eq_some_iff] at h
+    obtain ⟨a, hs, e⟩ := h
+    subst e
+    intro d hd; simp at hd; subst hd
+    unfold withLabels at hs
+    simp only at hs
+    split at hs
+    · simp only [Option.some.injEq] at hs; subst hs
+      intro c hco; simp at hco; exact hco.symm
+    · simp at hs
+  | oneVsAll =>
+    simp only [apply, Option.some.injEq] at h
+    subst h
+    intro d hd
+    simp only [List.mem_map] at hd
+    obtain ⟨⟨l, d0⟩, _, e⟩ := hd
+    subst e
+    intro c hco; simp at hco; exact hco.symm
+  | mapTargets f =>
+    simp only [apply, Option.some.injEq] at h
+    subst h
+    intro d hd; simp at hd; subst hd; exact none_ok rfl
+  | view =>
+    simp only [apply, Option.some.injEq] at h
+    subst h
+    intro d hd; simp at hd; subst hd; exact recount_ok rfl rfl rfl
+  | toOwned =>
+    simp only [apply, Option.some.injEq] at h
+    subst h
+    intro d hd; simp at hd; subst hd; exact recount_ok rfl rfl rfl
+  | intoSingleTarget =>
+    simp only [apply, Option.map_eq_some_iff] at h
+    obtain ⟨a, hs, e⟩ := h
+    subst e
+    intro d hd; simp at hd; subst hd
+    unfold intoSingleTarget at hs
+    simp only at hs
+    split at hs
+    · simp only [Option.some.injEq] at hs; subst hs; exact none_ok rfl
+    · simp at hs
+  | featureIter =>
+    intro d hd
+    obtain ⟨k, hk⟩ := List.getElem?_of_mem hd
+    obtain ⟨x, _, hfx⟩ := mapM_get h k d hk
+    split at hfx
+    · simp only [Option.some.injEq] at hfx; subst hfx; exact none_ok rfl
+    · simp at hfx
+  | targetIter =>
+    intro d hd
+    obtain ⟨k, hk⟩ := List.getElem?_of_mem hd
+    obtain ⟨x, _, hfx⟩ := mapM_get h k d hk
+    split at hfx
+    · simp only [Option.some.injEq] at hfx; subst hfx; exact none_ok rfl
+    · simp at hfx
+  | sampleChunks size =>
+    simp only [apply] at h
+    unfold sampleChunks at h
+    split at h
+    · simp at h
+    · simp only [Option.some.injEq] at h
+      subst h
+      intro d hd
+      simp only [List.mem_map] at hd
+      obtain ⟨i, _, e⟩ := hd
+      subst e
+      exact recount_ok rfl rfl rfl
+
+
+/-! ### inside the guard nothing panics -/
+
+
+/-- the index vectors the RNG hands out lie in range (`gen_range(0..n)`, a shuffled `0..n`) -/
+def InRange (idx : List Nat) (n : Nat) : Prop := ∀ i ∈ idx, i < n
+
+/-- **the guard of an operation**: the inputs for which the property promises a result.  Everything
+else is a documented panic (layout of the owned split, `[n, 1]` shape for `into_single_target`),
+an empty range handed to the RNG, a split point past the last sample, or a zero chunk size. -/
+def Guard (op : Op T) (ds : DS R T W) : Prop :=
+  match op with
+  | .splitView n1 => n1 ≤ ds.n
+  | .splitOwned std n1 => std = true ∧ ds.counts = none ∧ n1 ≤ ds.n
+  | .shuffle idx => InRange idx ds.n
+  | .bootstrap ns nf idx fidx => (ns = 0 ∨ 0 < ds.n) ∧ (nf = 0 ∨ 0 < ds.p) ∧ InRange idx ds.n ∧ InRange fidx ds.p
+  | .bootstrapSamples ns idx => (ns = 0 ∨ 0 < ds.n) ∧ InRange idx ds.n
+  | .bootstrapFeatures nf fidx => (nf = 0 ∨ 0 < ds.p) ∧ InRange fidx ds.p
+  | .intoSingleTarget => ds.t = 1
+  | .sampleChunks size => 0 < size
+  | _ => True
+
+theorem shuffle_total [DecidableEq T] {idx : List Nat} {ds : DS R T W} (hw : WF ds) (hi : InRange idx ds.n) :
+    (shuffle idx ds).isSome := by
+  obtain ⟨⟨h1, h2, h3⟩, _, _, _⟩ := hw
+  have hr := selRows_isSome (xs := ds.recs) hi
+  have hg := selRows_isSome (xs := ds.tgts) (fun i h => by rw [h3]; exact hi i h)
+  unfold shuffle
+  cases hr' : selRows idx ds.recs with
+  | none => simp [hr'] at hr
+  | some r =>
+    cases hg' : selRows idx ds.tgts with
+    | none => simp [hg'] at hg
+    | some g => simp
+
+theorem bootstrapSamples_total [DecidableEq T] {ns : Nat} {idx : List Nat} {ds : DS R T W} (hw : WF ds)
+    (hn : ns = 0 ∨ 0 < ds.n) (hi : InRange idx ds.n) : (bootstrapSamples ns idx ds).isSome := by
+  obtain ⟨⟨h1, h2, h3⟩, _, _, _⟩ := hw
+  have hr := selRows_isSome (xs := ds.recs) hi
+  have hg := selRows_isSome (xs := ds.tgts) (fun i h => by rw [h3]; exact hi i h)
+  unfold bootstrapSamples
+  have : ¬ (0 < ns ∧ ds.n = 0) := by omega
+  simp only [this, if_false]
+  cases hr' : selRows idx ds.recs with
+  | none => simp [hr'] at hr
+  | some r =>
+    cases hg' : selRows idx ds.tgts with
+    | none => simp [hg'] at hg
+    | some g => simp
+
+theorem bootstrapFeatures_total [DecidableEq T] {nf : Nat} {fidx : List Nat} {ds : DS R T W} (hw : WF ds)
+    (hn : nf = 0 ∨ 0 < ds.p) (hi : InRange fidx ds.p) : (bootstrapFeatures nf fidx ds).isSome := by
+  obtain ⟨⟨h1, h2, h3⟩, _, _, _⟩ := hw
+  have hr := selCols_isSome h1 hi
+  unfold bootstrapFeatures
+  have : ¬ (0 < nf ∧ ds.p = 0) := by omega
+  simp only [this, if_false]
+  cases hr' : selCols fidx ds.recs with
+  | none => simp [hr'] at hr
+  | some r => simp
+
+theorem keptIdx_lt [DecidableEq T] (labs : List T) (tgts : List (List T)) : ∀ i ∈ keptIdx labs tgts, i < tgts.length := by
+  intro i hi
+  simp only [keptIdx, List.mem_filter, List.mem_range] at hi
+  exact hi.1
+
+theorem withLabels_total [DecidableEq T] {labs : List T} {ds : DS R T W} (hw : WF ds) : (withLabels labs ds).isSome := by
+  obtain ⟨⟨h1, h2, h3⟩, hwt, _, _⟩ := hw
+  have hk : ∀ i ∈ keptIdx labs (ds.tgts.take ds.n), i < ds.recs.length := by
+    intro i hi
+    have := keptIdx_lt labs _ i hi
+    simp [DS.n] at this
+    omega
+  have hr := selRows_isSome (xs := ds.recs) hk
+  have hg := selRows_isSome (xs := ds.tgts) (fun i h => by rw [h3]; exact hk i h)
+  unfold withLabels
+  simp only
+  cases hr' : selRows (keptIdx labs (ds.tgts.take ds.n)) ds.recs with
+  | none => simp [hr'] at hr
+  | some r =>
+    cases hg' : selRows (keptIdx labs (ds.tgts.take ds.n)) ds.tgts with
+    | none => simp [hg'] at hg
+    | some g =>
+      by_cases hwe : ds.weights.isEmpty = true
+      · simp [hwe]
+      · have hl : ds.weights.length = ds.recs.length := by
+          rcases hwt with h | h
+          · simp [h] at hwe
+          · exact h
+        have hws := selRows_isSome (xs := ds.weights) (fun i h => by rw [hl]; exact hk i h)
+        cases hw' : selRows (keptIdx labs (ds.tgts.take ds.n)) ds.weights with
+        | none => simp [hw'] at hws
+        | some w => simp [hwe]
+
+theorem featureIter_total {ds : DS R T W} (hw : WF ds) : (featureIter ds).isSome := by
+  obtain ⟨⟨h1, h2, h3⟩, _, hf, _⟩ := hw
+  refine mapM_isSome (fun j hj => ?_)
+  have hj' : j < ds.p := by simpa using hj
+  have hc := selCols_isSome (cols := [j]) h1 (by simpa using hj')
+  cases hc' : colOf j ds.recs with
+  | none => simp [colOf] at hc'; simp [hc'] at hc
+  | some r =>
+    by_cases hn1 : ds.fnames.length = 1
+    · have hjn : j < ds.fnames.length := by
+        rcases hf with h | h
+        · simp [h] at hn1
+        · omega
+      have hnm : ds.fnames[j]? = some ds.fnames[j] := List.getElem?_eq_getElem hjn
+      simp [hn1, hnm]
+    · simp [hn1]
+
+theorem targetIter_total {ds : DS R T W} (hw : WF ds) : (targetIter ds).isSome := by
+  obtain ⟨⟨h1, h2, h3⟩, _, _, htn⟩ := hw
+  refine mapM_isSome (fun c hc => ?_)
+  have hc' : c < ds.t := by simpa using hc
+  have hcol := selCols_isSome (cols := [c]) h2 (by simpa using hc')
+  cases hco : colOf c ds.tgts with
+  | none => simp [colOf] at hco; simp [hco] at hcol
+  | some g =>
+    by_cases hn1 : ds.tnames.isEmpty = true
+    · simp [hn1]
+    · have hcn : c < ds.tnames.length := by
+        rcases htn with h | h
+        · simp [h] at hn1
+        · omega
+      simp [hn1, hcn]
+
+/-- **inside the guard no operation panics**: on a dataset the constructors can build, every
+operation whose guard holds returns (the model's `none` = panic does not occur) -/
+theorem apply_total_aux [DecidableEq T] (ofBool : Bool → T) (op : Op T) (ds : DS R T W) (hw : WF ds)
+    (hg : Guard op ds) : (apply ofBool op ds).isSome := by
+  cases op with
+  | splitView n1 =>
+    simp only [Guard] at hg
+    have : ¬ ds.n < n1 := by omega
+    simp [apply, splitView, this]
+  | splitOwned std n1 =>
+    obtain ⟨hs, hc, hn⟩ := hg
+    have : ¬ ds.n < n1 := by omega
+    simp [apply, splitOwned, DS.counted, hc, hs, this]
+  | shuffle idx =>
+    have := shuffle_total hw hg
+    simp only [apply]
+    cases h : shuffle idx ds with
+    | none => simp [h] at this
+    | some d => simp
+  | bootstrap ns nf idx fidx =>
+    obtain ⟨hn, hf, hi, hfi⟩ := hg
+    have h1 := bootstrapSamples_total hw hn hi
+    simp only [apply, bootstrap]
+    cases hb : bootstrapSamples ns idx ds with
+    | none => simp [hb] at h1
+    | some d1 =>
+      have hw1 := bootstrapSamples_wf hw hb
+      have hp : d1.p = ds.p := by
+        unfold bootstrapSamples at hb
+        split at hb
+        · simp at hb
+        · cases hr : selRows idx ds.recs with
+          | none => simp [hr] at hb
+          | some r =>
+            cases hg : selRows idx ds.tgts with
+            | none => simp [hr, hg] at hb
+            | some g => simp [hr, hg] at hb; subst hb; rfl
+      have h2 := bootstrapFeatures_total (nf := nf) (fidx := fidx) hw1 (by rw [hp]; exact hf) (by rw [hp]; exact hfi)
+      simp only
+      cases hb2 : bootstrapFeatures nf fidx d1 with
+      | none => simp [hb2] at h2
+      | some d => simp
+  | bootstrapSamples ns idx =>
+    have := bootstrapSamples_total hw hg.1 hg.2
+    simp only [apply]
+    cases h : bootstrapSamples ns idx ds with
+    | none => simp [h] at this
+    | some d => simp
+  | bootstrapFeatures nf fidx =>
+    have := bootstrapFeatures_total hw hg.1 hg.2
+    simp only [apply]
+    cases h : bootstrapFeatures nf fidx ds with
+    | none => simp [h] at this
+    | some d => simp
+  | withLabels labs =>
+    have := withLabels_total (labs := labs) hw
+    simp only [apply]
+    cases h : withLabels labs ds with
+    | none => simp [h] at this
+    | some d => simp
+  | oneVsAll => simp [apply]
+  | mapTargets f => simp [apply]
+  | view => simp [apply]
+  | toOwned => simp [apply]
+  | intoSingleTarget =>
+    simp only [Guard] at hg
+    obtain ⟨⟨h1, h2, h3⟩, _, _, _⟩ := hw
+    have := flatten_length_shaped ds.tgts h2
+    simp [apply, intoSingleTarget, this, hg, h3, DS.n]
+  | featureIter => exact featureIter_total hw
+  | targetIter => exact targetIter_total hw
+  | sampleChunks size =>
+    simp only [Guard] at hg
+    have : size ≠ 0 := by omega
+    simp [apply, sampleChunks, this]
+
 
 end LinfaSpec.Dataset
